@@ -39,6 +39,8 @@ ASSUMPTIONS = [
     "JAX's own AD (jax.jvp / jax.grad on the same Python function, same process, float32) is the reference",
     "agreement is up to 64 float32 ulps of the largest intermediate magnitude of the reference computation "
     "(cond continuations are compiled as one XLA computation by ADEV, so bitwise equality is not demanded)",
+    "a value mismatch is discarded (and counted) when JAX's own result at those arguments differs between jax.jit and "
+    "op-by-op execution by more than the tolerance (tie within rounding error of a comparison / argmax / max)",
     "arguments with integer / boolean leaves are outside jax.grad's domain: only jvp_estimate and estimate are checked there",
     "lax.switch with > 2 branches, scan / while loops and custom_vjp functions are not in the pool (not named by the property)",
     "JAX API translation layer (DESIGN §2)",
@@ -61,6 +63,10 @@ CASE_BUDGET_S = 60
 ULPS = 64
 EPS = float(np.finfo(np.float32).eps)
 PROFILES = ["scalar", "array", "array", "pytree", "pytree", "int"]
+# Operation classes that fail on the pinned tree and that the lead may want to rule in or out of the claim as a block
+# (custom_jvp functions called at top level, lax.top_k / lax.sort_key_val, cond with several outputs, singular
+# derivative at a symbolic-zero value).  They are generated at top level only, so that the bisection names them.
+INCLUDE_FAIL_PRONE_CLASSES = True
 EAGER_EVERY = 8  # every 8th program runs op by op (as at a prompt); the others under jax.jit, oracle and genjax alike
 
 
@@ -76,7 +82,7 @@ def plan(tier, seed):
         rng = np.random.default_rng([int(seed), 15, i])
         prof = PROFILES[int(rng.integers(len(PROFILES)))]
         n_nodes = int(rng.integers(3, max_nodes + 1))
-        spec = P.gen_program(rng, prof, n_nodes, depth=2, allow_fail_ops=True, int_out=bool(rng.random() < 0.06))
+        spec = P.gen_program(rng, prof, n_nodes, depth=2, allow_fail_ops=INCLUDE_FAIL_PRONE_CLASSES, int_out=bool(rng.random() < 0.08))
         cases.append({"spec": spec, "vseed": [int(seed), 15, i], "n_argsets": n_sets, "ctl_bit": i % 2, "profile": prof,
                       "mode": "eager" if i % EAGER_EVERY == 0 else "jit"})
     return cases
@@ -92,10 +98,9 @@ def worker_setup(ctx):
     import jax
     import jax.numpy as jnp
     import jax.tree_util as jtu
-    from jax._src.interpreters import ad as _ad
     from genjax.adev import Dual, expectation
 
-    _W.update(jax=jax, jnp=jnp, jtu=jtu, ad=_ad, Dual=Dual, expectation=expectation)
+    _W.update(jax=jax, jnp=jnp, jtu=jtu, Dual=Dual, expectation=expectation)
     ctx.note(
         f"tolerance: |genjax - jax| <= {ULPS} * eps_f32 * max(|reference|, largest intermediate magnitude of the "
         "reference run); a dropped / swapped / stale term moves a value by O(1) of an intermediate, i.e. ~1e5 tolerances"
@@ -361,6 +366,23 @@ def _attribute(case, consts, mode, args, ftans, entry, ctx):
     return "op:" + P.op_class(nd["op"]), {"first_failing_prefix": hi, "operation": nd["op"], "inputs": nd["in"], "type": nd["ty"]}
 
 
+def _oracle_unstable(spec, consts, mode, args, ftans, entry, orc, ctx):
+    """True when JAX's own result for this entry point is not reproducible between jax.jit and op-by-op execution
+    to within the tolerance at these arguments (a comparison / argmax / max sitting within rounding error of a tie
+    flips a branch or a selected element).  Such inputs have no reference value to compare against; the criterion
+    involves the oracle only, never genjax."""
+    jtu = _W["jtu"]
+    other = _Run(spec, consts, "eager" if mode == "jit" else "jit")
+    o2 = other.oracle(args, ftans, entry == "grad_estimate")
+    if entry == "estimate":
+        pairs = [(o2["val"], orc["val"], orc["sp"])]
+    elif entry == "jvp_estimate":
+        pairs = [(o2["jvp"][0], orc["jvp"][0], orc["sp"]), (o2["jvp"][1], orc["jvp"][1], max(orc["st"], 1e-30))]
+    else:
+        pairs = [(a, b, orc["sg"]) for a, b in zip(jtu.tree_leaves(o2["grad"]), jtu.tree_leaves(orc["grad"]))]
+    return any(_cmp(a, b, s, ctx, None) is not None for a, b, s in pairs)
+
+
 def run_case(case, ctx):
     jax, jnp, jtu = _W["jax"], _W["jnp"], _W["jtu"]
     spec = case["spec"]
@@ -415,13 +437,16 @@ def run_case(case, ctx):
         for entry in entries:
             short = entry.split("_")[0]
             ctx.count(short + "_checks")
-            if entry == "estimate" and kind in ("scalar", "scalar-pytree"):
+            if entry == "estimate" and kind in ("scalar", "scalar-pytree", "int"):
                 ctx.count("estimate_scalar_checks")
             if entry == "estimate" and kind == "array":
                 ctx.count("estimate_array_checks")
             what, obs = run.check(entry, args, ftans, orc, ctx)
             if what is None:
                 ctx.count(short + "_agree")
+                continue
+            if what.endswith("value") and _oracle_unstable(spec, consts, mode, args, ftans, entry, orc, ctx):
+                ctx.count("skipped_oracle_not_reproducible_jit_vs_eager")
                 continue
             if entry not in attributed:
                 if entry == "estimate":
